@@ -1,6 +1,8 @@
 package mon
 
 import (
+	"time"
+	"context"
 	"errors"
 	"fmt"
 	"net/http"
@@ -249,6 +251,16 @@ func c09Case(t *T) {
 		for k, v := range hdr {
 			req.Header.Set(k, v)
 		}
+		switch hdr["X-Req-Context"] {
+		case "canceled": // the client went away: the request's own context is canceled already
+			cctx, cancel := context.WithCancel(req.Context())
+			cancel()
+			req = req.WithContext(cctx)
+		case "deadline-passed":
+			dctx, cancel := context.WithDeadline(req.Context(), time.Unix(1, 0))
+			defer cancel()
+			req = req.WithContext(dctx)
+		}
 		return Serve(rt, req)
 	}
 	// healthy prefix
@@ -301,6 +313,10 @@ func c09Case(t *T) {
 		if phase == "post" {
 			t.Count("panic.after_next", 1)
 		}
+	}
+	if chance(r, 1, 4) {
+		hdr["X-Req-Context"] = pick(r, []string{"canceled", "deadline-passed"})
+		t.Count("panic.request_context_done", 1)
 	}
 	var hookNested *c09Req
 	if hookKind != "absent" && chance(r, 1, 3) {
